@@ -84,10 +84,13 @@ theorem id_resolves_full_fails :
 def wRootDoc : Json := .obj [(idKey, .str [114]), ([118], .num [49])]
 def wIdR : Bytes := [47, 105, 100, 47, 114]       -- "/id/r"
 
-/-- **an @id on the top-level object is not served.**  It is indexed as `/config`;
-    `handleConfigID` rewrites `/id/r` to `/config` and the mux answers 301 (to `/config/`). -/
-theorem id_on_root_full_fails :
-    (wLoad wRootDoc).index = [([114], [47, 99, 111, 110, 102, 105, 103])] ∧ (serve wAll (wGet wIdR) (wLoad wRootDoc)).2 = .redirect := by
+/-- **the old code did not serve an @id on the top-level object** (non-vacuity of the root
+    case of `id_resolves_partial`): it is indexed as `/config`; `handleConfigID` used to hand
+    exactly that path to the mux, which answers 301 (to `/config/`).  The current code
+    appends the slash and `GET /id/r` returns the whole configuration. -/
+theorem id_on_root_old_code_fails :
+    (wLoad wRootDoc).index = [([114], slash :: cfgKey)] ∧ route (slash :: cfgKey) = .redirect ∧
+    (serve wAll (wGet wIdR) (wLoad wRootDoc)).2 = .okGet (some wRootDoc) cfgPrefix := by
   decide
 
 end CaddyModel.C12
